@@ -17,6 +17,7 @@ import (
 type c16Service struct {
 	c04Service
 	TLS string `json:"tls"` // "", static, static-noredirect, acme
+	Fwd bool   `json:"forward_headers"`
 }
 
 type c16Scenario struct {
@@ -68,11 +69,14 @@ func c16Gen(rng *rand.Rand, idx int) c16Scenario {
 			sc.Services = append(sc.Services, s)
 		}
 	}
+	for i := range sc.Services {
+		sc.Services[i].Fwd = rng.IntN(2) == 0
+	}
 	return sc
 }
 
 func (s c16Service) cmd() Cmd {
-	c := Cmd{Kind: "deploy", Svc: s.Name, Targets: []string{"svc-" + s.Name + ":80"}, Hosts: s.Hosts, Prefixes: s.Prefixes, TLS: s.TLS, DeployTO: 5 * time.Second, DrainTO: time.Second}
+	c := Cmd{Kind: "deploy", Svc: s.Name, Targets: []string{"svc-" + s.Name + ":80"}, Hosts: s.Hosts, Prefixes: s.Prefixes, TLS: s.TLS, Fwd: s.Fwd, DeployTO: 5 * time.Second, DrainTO: time.Second}
 	if len(s.Hosts) == 1 && s.Hosts[0] == "" {
 		c.Hosts = nil
 	}
@@ -256,7 +260,12 @@ func c16Run(t *testing.T, run *Run, sc c16Scenario, rng *rand.Rand) {
 				decoded = "/p q/A"
 			}
 			name := refRoute(tbl, h, decoded)
-			r := w.Do(Req{ID: id, Host: h, Path: p + q})
+			// what the client says about an earlier hop never decides: only the connection it arrived on does
+			var claims [][2]string
+			if nreq%3 == 0 {
+				claims = [][2]string{{"X-Forwarded-Proto", "https"}, {"X-Forwarded-For", "1.2.3.4"}, {"Forwarded", "proto=https;host=" + h}}
+			}
+			r := w.Do(Req{ID: id, Host: h, Path: p + q, Hdr: claims})
 			if name == "" {
 				if r.Status != 404 {
 					fail("unrouted-not-404", "Host %s path %s: no service, got %d", h, p, r.Status)
@@ -306,7 +315,11 @@ func c16Run(t *testing.T, run *Run, sc c16Scenario, rng *rand.Rand) {
 		for _, hostHdr := range []string{sni, "t1.example", "x.wild.example"} {
 			for _, p := range []string{"/", "/api/x"} {
 				nreq++
-				r := w.Do(Req{ID: fmt.Sprintf("t%d", nreq), Host: hostHdr, Path: p, TLS: true, SNI: sni})
+				var claims [][2]string
+				if nreq%3 == 0 {
+					claims = [][2]string{{"X-Forwarded-Proto", "http"}, {"Forwarded", "proto=http"}}
+				}
+				r := w.Do(Req{ID: fmt.Sprintf("t%d", nreq), Host: hostHdr, Path: p, TLS: true, SNI: sni, Hdr: claims})
 				if !wantCert {
 					if r.Status != -1 {
 						fail("handshake-for-unbound-name", "TLS handshake with SNI %q succeeded (status %d) although no TLS-enabled root-path service is bound to it", sni, r.Status)
